@@ -36,7 +36,7 @@ FLOATS = ["float16", "float32", "float64"]
 FB_DTYPES = ["bool"] + INTS + FLOATS + [">i4", ">f8", ">u2", "<i2"]      # a declared dtype may carry an explicit byte order
 NPZ_DTYPES = ["bool"] + INTS + FLOATS + ["bytes", "str"]
 WRITER = {"fb": "ShardWriterFlatBuffer", "npz": "ShardWriterNP", "tfrec": "ShardWriterTFRec"}
-READERS = ["sync", "concurrent", "async", "rust", "tf"]
+READERS = ["sync", "concurrent", "async", "rust", "tf", "concurrent-pr"]     # "-pr": with a process_record that hands the decoded arrays on (views, not copies)
 
 
 # ------------------------------------------------------------------------------------------------
@@ -199,6 +199,13 @@ def _read_all(ds, reader: str, T: int):
         return list(ds.as_numpy_iterator(**kw))
     if reader == "concurrent":
         return list(ds.as_numpy_iterator_concurrent(file_parallelism=T, **kw))
+    if reader == "concurrent-pr":
+        # the caller's transformation keeps the arrays it is given (returns the dict itself / views of the arrays): every example
+        # it has returned must keep its value while later examples are decoded
+        def keep(d):
+            import numpy as np
+            return {k: (v[...] if isinstance(v, np.ndarray) and v.ndim else v) for k, v in d.items()}
+        return list(ds.as_numpy_iterator_concurrent(file_parallelism=T, process_record=keep, **kw))
     if reader == "rust":
         return list(ds.as_numpy_iterator_rust(file_parallelism=T, **kw))
     if reader == "async":
